@@ -291,6 +291,37 @@ def r6(ctx, prog):
             return pol and rl.is_call(f, f.strip(e), ("_mi_os_commit", "_mi_os_commit_ex"))
         w = cfg.guarded(cfg.pt(c), committed)
         ctx.check(R, w is None, f.where(c), "the full mask is only claimed for memory that came committed or was just committed successfully", key="C07.R6:full_mask", witness=w)
+    # range agreement: the commit that justifies a full mask covers the whole segment (pointer and size of the allocation itself)
+    allocs = [c for c in f.calls("_mi_arena_alloc_aligned")]
+    if len(allocs) == 1:
+        size_d = rl.var_of(f, rl.arg(f, allocs[0], 0))
+        seg_d = None
+        u = rl.result_use(f, allocs[0])
+        if isinstance(u, tuple) and u[0] == "init":
+            seg_d = u[1]
+        for c in f.calls("mi_commit_mask_create_full"):
+            for q in [x for x in f.calls(("_mi_os_commit", "_mi_os_commit_ex"))]:
+                # the commit whose success edge guards this full mask
+                if cfg.guarded(cfg.pt(c), lambda e, pol, q=q: isinstance(e, int) and pol and f.strip(e) == q) is None:
+                    a0, a1 = rl.arg(f, q, 0), rl.arg(f, q, 1)
+                    ok = rl.var_of(f, a0) == seg_d and rl.var_of(f, a1) == size_d and size_d is not None
+                    ctx.check(R, ok, f.where(q), "the commit that justifies the full mask covers the whole segment: _mi_os_commit(%s, %s) must be (segment, segment_size) of the allocation"
+                              % (f.text(a0), f.text(a1)), key="C07.R6:full_range")
+    h2 = prog.fn("mi_segment_commit")
+    cms = list(h2.calls("mi_segment_commit_mask"))
+    if len(cms) == 1:
+        outs = []
+        for a in h2.nodes[cms[0]]["args"]:
+            j = h2.strip(a)
+            if h2.nodes[j]["k"] == "UnaryOperator" and h2.nodes[j]["op"] == "&":
+                outs.append(rl.var_of(h2, h2.nodes[j]["c"][0]))
+        for q in h2.calls(("_mi_os_commit", "_mi_os_commit_ex")):
+            ok = rl.var_of(h2, rl.arg(h2, q, 0)) in outs and rl.var_of(h2, rl.arg(h2, q, 1)) in outs
+            ctx.check(R, ok, h2.where(q), "the committed range (start, full_size) is the one mi_segment_commit_mask computed for the recorded mask", key="C07.R6:commit_range")
+        for c in h2.calls("mi_commit_mask_set"):
+            j = h2.strip(rl.arg(h2, c, 1))
+            ok = h2.nodes[j]["k"] == "UnaryOperator" and rl.var_of(h2, h2.nodes[j]["c"][0]) in outs
+            ctx.check(R, ok, h2.where(c), "the recorded mask is the one computed together with that range", key="C07.R6:commit_mask")
     g = prog.fn("mi_segment_alloc")
     ok = False
     for a, l, rhs, op in g.field_stores("kind"):
@@ -306,7 +337,7 @@ def r6(ctx, prog):
             w = cfg.guarded(cfg.pt(r), lambda e, pol: isinstance(e, int) and pol and rl.is_call(h, h.strip(e), "mi_commit_mask_is_full"))
             ctx.check(R, w is None, h.where(r), "`return true` without committing only when the commit mask is full", key="C07.R6:ensure", witness=w)
     ctx.check(R, any(True for _ in h.calls("mi_segment_commit")), h.where(), "otherwise the answer is mi_segment_commit's", key="C07.R6:ensure:delegate")
-    ctx.floor(R, 5)
+    ctx.floor(R, 8)
 
 
 def run(ctx):
